@@ -152,28 +152,40 @@ Section Dispatch.
       (split; [first [apply plain_no_flags|apply plain_with_keccak]|auto]).
   Qed.
 
-  Theorem chia_op_agrees ext opc args M :
+  Lemma lookup_none_codes b :
+    lookup b (ref_table H cur) = None -> existsb (N.eqb b) classic_codes = false.
+  Proof.
+    unfold ref_table, classic_codes. cbn [lookup existsb].
+    repeat match goal with |- context [N.eqb b ?c] =>
+      destruct (N.eqb_spec b c) as [->|_]; [intros E; discriminate E|] end.
+    intros _; reflexivity.
+  Qed.
+
+  (* [dom]: the domain of the comparison (Model/RefClvm.v); the wrap class of finding F6 only
+     matters for opcodes that are dispatched to the unknown-operator rule *)
+  Theorem chia_op_agrees dom ext opc args M :
     ext <> OsPreHardFork ->
     M < two64 ->
-    ~ wraps64 opc (arg_lens args) false M ->
+    (classic_code opc = false -> ~ wraps64 opc (arg_lens args) false M) ->
     (forall b, In (Atom b) (items args) -> blen b < 2147483648) ->
-    ref_op H cur (ext_kec ext) opc (items args) (ending args) <> Err Unsupported ->
-    covers M (ref_op H cur (ext_kec ext) opc (items args) (ending args)) ->
+    ref_op H cur dom (ext_kec ext) opc (items args) (ending args) <> Err Unsupported ->
+    covers M (ref_op H cur dom (ext_kec ext) opc (items args) (ending args)) ->
     agrees (chia_op P true no_flags (Atom opc) args M ext)
-           (ref_op H cur (ext_kec ext) opc (items args) (ending args)).
+           (ref_op H cur dom (ext_kec ext) opc (items args) (ending args)).
   Proof.
     intros Hext HM Hw Hsz Hcl Hc.
     destruct (ext_flags ext Hext) as [Hpl Hfl].
     unfold ref_op in *. cbn [ad_literal_operands_any_terminator cur negb andb] in *.
-    destruct (non_classic (ext_kec ext) opc) eqn:Enc; [congruence|]. clear Hcl.
+    destruct (non_classic (ext_kec ext) opc || negb (dom opc (items args))) eqn:Enc; [congruence|].
+    clear Hcl. apply orb_false_iff in Enc. destruct Enc as [Enc _].
     unfold chia_op. set (fl := op_flags no_flags ext) in *.
-    assert (Hunknown : covers M (ref_unknown cur opc (items args)) ->
+    assert (Hunknown : classic_code opc = false -> covers M (ref_unknown cur opc (items args)) ->
                        agrees (unknown_operator opc fl args M) (ref_unknown cur opc (items args))).
-    { intros Hc'. apply unknown_agrees; assumption. }
+    { intros Hcc Hc'. apply unknown_agrees; auto. }
     unfold non_classic in Enc. apply orb_false_iff in Enc. destruct Enc as [Enc E1].
     apply orb_false_iff in Enc. destruct Enc as [Ek1 Er1].
     destruct opc as [|b [|c opc']].
-    - (* empty opcode *) cbn [length Nat.eqb negb andb]. apply Hunknown, Hc.
+    - (* empty opcode *) cbn [length Nat.eqb negb andb]. apply Hunknown; [reflexivity|exact Hc].
     - (* one byte *)
       cbn [length Nat.eqb negb andb]. rewrite small_number_byte.
       pose proof (lookup_tables b _ _ tables_agree) as Hl.
@@ -182,13 +194,14 @@ Section Dispatch.
         pose proof (lookup_listed_small _ _ Hop) as Hb.
         assert (E : ((b =? 0) || (128 <=? b)) = false) by lia. rewrite E.
         rewrite (chia_table_listed fl _ _ Hop). apply Hag; assumption.
-      + destruct ((b =? 0) || (128 <=? b)) eqn:Eb; [apply Hunknown, Hc|].
-        rewrite (chia_table_unassigned fl (ext_kec ext) b); [apply Hunknown, Hc|exact Hfl|lia|exact Hl|].
+      + assert (Hcc : classic_code [b] = false) by (apply lookup_none_codes, Eg).
+        destruct ((b =? 0) || (128 <=? b)) eqn:Eb; [apply Hunknown; [exact Hcc|exact Hc]|].
+        rewrite (chia_table_unassigned fl (ext_kec ext) b); [apply Hunknown; [exact Hcc|exact Hc]|exact Hfl|lia|exact Hl|].
         unfold non_classic. rewrite Ek1, Er1, E1. reflexivity.
     - (* two or more bytes *)
       change SECP256K1_OPCODE with [19; 214; 31; 0]. change SECP256R1_OPCODE with [28; 58; 143; 0].
       rewrite Ek1, Er1. cbn [andb].
-      destruct (length (b :: c :: opc') =? 4)%nat; [apply Hunknown, Hc|].
-      cbn [length Nat.eqb negb]. apply Hunknown, Hc.
+      destruct (length (b :: c :: opc') =? 4)%nat; [apply Hunknown; [reflexivity|exact Hc]|].
+      cbn [length Nat.eqb negb]. apply Hunknown; [reflexivity|exact Hc].
   Qed.
 End Dispatch.
